@@ -463,3 +463,153 @@ Lemma source_shape :
                              "uncompressedData"]%string /\
   In ("if", "v < prev")%string encodeEvents /\ In ("call", "buf.PutUvarint64")%string encodeEvents.
 Proof. repeat split; try reflexivity; cbn; tauto. Qed.
+
+(* ---- histories of pooled decoders: the buffer pool -------------------------------------- *)
+From Coq Require Import Permutation.
+
+Lemma remove_first_perm : forall l x l', remove_first x l = Some l' -> Permutation l (x :: l').
+Proof.
+  induction l as [|y l IH]; intros x l' H; cbn [remove_first] in H; [discriminate|].
+  destruct (y =? x) eqn:E.
+  - apply N.eqb_eq in E. inversion H; subst. reflexivity.
+  - destruct (remove_first x l) as [r|] eqn:R; [|discriminate]. inversion H; subst.
+    rewrite (IH x r R). apply perm_swap.
+Qed.
+
+Lemma live_bufs_app ds x : live_bufs (ds ++ [x]) = live_bufs ds ++ live_bufs [x].
+Proof.
+  induction ds as [|[[id|] [|] c] ds IH]; cbn [app live_bufs]; rewrite ?IH; reflexivity.
+Qed.
+
+Lemma live_bufs_acquire : forall ds d id, nth_error ds d = Some (mkPD None true false) ->
+  Permutation (live_bufs (upd_nth d (fun _ => mkPD (Some id) true false) ds)) (id :: live_bufs ds).
+Proof.
+  induction ds as [|x ds IH]; intros [|d] id H; cbn in H; try discriminate.
+  - inversion H; subst. cbn [upd_nth live_bufs]. reflexivity.
+  - cbn [upd_nth]. destruct x as [[b|] [|] c]; cbn [live_bufs]; try apply (IH d id H).
+    rewrite (IH d id H). apply perm_swap.
+Qed.
+
+Lemma live_bufs_release : forall ds d x c', nth_error ds d = Some x -> pd_live x = true ->
+  Permutation (live_bufs ds) (match pd_buf x with Some id => [id] | None => [] end ++ live_bufs (upd_nth d (fun _ => mkPD (pd_buf x) false c') ds)).
+Proof.
+  induction ds as [|y ds IH]; intros [|d] x c' H L; cbn in H; try discriminate.
+  - inversion H; subst. destruct x as [[b|] l c]; cbn in L; subst; cbn [upd_nth live_bufs pd_buf app]; reflexivity.
+  - cbn [upd_nth]. specialize (IH d x c' H L).
+    destruct y as [[b|] [|] c]; cbn [live_bufs]; try exact IH.
+    rewrite IH. destruct (pd_buf x); cbn [app]; [apply perm_swap|reflexivity].
+Qed.
+
+Definition dec_ok (x : pdec) : Prop := pd_live x = negb (pd_closed x).
+
+Definition hinv (st : hpool) : Prop :=
+  NoDup (hp_pool st ++ live_bufs (hp_decs st)) /\
+  Forall (fun i => i < hp_fresh st) (hp_pool st ++ live_bufs (hp_decs st)) /\
+  Forall dec_ok (hp_decs st).
+
+Lemma forall_upd_nth {A} (P : A -> Prop) : forall (l : list A) k f, Forall P l ->
+  (forall x, nth_error l k = Some x -> P (f x)) -> Forall P (upd_nth k f l).
+Proof.
+  induction l as [|x l IH]; intros [|k] f H Hf; cbn [upd_nth]; try constructor; inversion H; subst; auto.
+  all: try (apply Hf; reflexivity); try (apply IH; auto).
+Qed.
+
+Lemma hp_acquire_inv st d acq st' : hinv st -> hp_acquire st d acq = Some st' ->
+  hinv st' /\ (forall x, nth_error (hp_decs st) d = Some x -> pd_closed x = false ->
+               exists y, nth_error (hp_decs st') d = Some y /\ pd_closed y = false).
+Proof.
+  intros (I1 & I2 & I3) H. unfold hp_acquire in H. destruct acq as [id|].
+  2:{ inversion H; subst. split; [repeat split; assumption|]. intros x Hx Hc. eauto. }
+  destruct (nth_error (hp_decs st) d) as [[[b|] [|] [|]]|] eqn:E; try discriminate.
+  assert (Hafter : forall ds', ds' = upd_nth d (fun _ => mkPD (Some id) true false) (hp_decs st) ->
+            exists y, nth_error ds' d = Some y /\ pd_closed y = false).
+  { intros ds' ->. clear - E. revert d E. induction (hp_decs st) as [|x l IH]; intros [|d] E; cbn in E; try discriminate.
+    - cbn. eauto.
+    - cbn [upd_nth nth_error]. apply IH. exact E. }
+  pose proof (live_bufs_acquire _ _ id E) as P.
+  destruct (remove_first id (hp_pool st)) as [p'|] eqn:R.
+  - inversion H; subst; clear H. apply remove_first_perm in R.
+    assert (Q : Permutation (hp_pool st ++ live_bufs (hp_decs st))
+                  (p' ++ live_bufs (upd_nth d (fun _ => mkPD (Some id) true false) (hp_decs st)))).
+    { rewrite P, R. cbn [app]. apply Permutation_middle. }
+    split; [|intros x Hx Hc; apply Hafter; reflexivity].
+    repeat split; cbn [hp_pool hp_decs hp_fresh].
+    + apply (Permutation_NoDup Q I1).
+    + apply (Permutation_Forall Q I2).
+    + apply forall_upd_nth; [exact I3|]. intros; reflexivity.
+  - destruct (id =? hp_fresh st) eqn:F; [|discriminate]. apply N.eqb_eq in F. subst id.
+    inversion H; subst; clear H.
+    assert (Q : Permutation (hp_fresh st :: hp_pool st ++ live_bufs (hp_decs st))
+                  (hp_pool st ++ live_bufs (upd_nth d (fun _ => mkPD (Some (hp_fresh st)) true false) (hp_decs st)))).
+    { rewrite P. apply Permutation_middle. }
+    split; [|intros x Hx Hc; apply Hafter; reflexivity].
+    repeat split; cbn [hp_pool hp_decs hp_fresh].
+    + apply (Permutation_NoDup Q). constructor; [|exact I1].
+      intro Hin. rewrite Forall_forall in I2. specialize (I2 _ Hin). lia.
+    + apply (Permutation_Forall Q). constructor; [lia|]. eapply Forall_impl; [|exact I2]. cbn. intros; lia.
+    + apply forall_upd_nth; [exact I3|]. intros; reflexivity.
+Qed.
+
+Lemma hp_step_inv st e acq st' : hinv st -> hp_step false st e acq = Some st' -> hinv st'.
+Proof.
+  intros I H. destruct e as [l|d k|d|d]; cbn [hp_step] in H.
+  - inversion H; subst; clear H. destruct I as (I1 & I2 & I3). repeat split; cbn [hp_pool hp_decs hp_fresh].
+    + rewrite live_bufs_app. cbn [live_bufs]. rewrite app_nil_r. exact I1.
+    + rewrite live_bufs_app. cbn [live_bufs]. rewrite app_nil_r. exact I2.
+    + apply Forall_app. split; [exact I3|]. constructor; [reflexivity|constructor].
+  - destruct (nth_error (hp_decs st) d) as [x|]; [|discriminate]. destruct (pd_closed x); [discriminate|].
+    apply (hp_acquire_inv _ _ _ _ I H).
+  - destruct (nth_error (hp_decs st) d) as [x|]; [|discriminate]. destruct (pd_closed x); [discriminate|].
+    destruct (hp_acquire st d acq) as [st1|] eqn:A; [|discriminate]. inversion H; subst.
+    apply (hp_acquire_inv _ _ _ _ I A).
+  - destruct (nth_error (hp_decs st) d) as [x|] eqn:E; [|discriminate]. destruct (pd_closed x) eqn:C; [discriminate|].
+    inversion H; subst; clear H. destruct I as (I1 & I2 & I3).
+    assert (L : pd_live x = true).
+    { rewrite Forall_forall in I3. specialize (I3 x (nth_error_In _ _ E)). unfold dec_ok in I3. rewrite C in I3. exact I3. }
+    pose proof (live_bufs_release _ _ _ true E L) as P.
+    assert (Q : Permutation (hp_pool st ++ live_bufs (hp_decs st))
+                  (put_buf (pd_buf x) (hp_pool st) ++ live_bufs (upd_nth d (fun _ => mkPD (pd_buf x) false true) (hp_decs st)))).
+    { rewrite P. destruct (pd_buf x) as [id|]; cbn [put_buf app]; [symmetry; apply Permutation_middle|reflexivity]. }
+    repeat split; cbn [hp_pool hp_decs hp_fresh].
+    + apply (Permutation_NoDup Q I1).
+    + apply (Permutation_Forall Q I2).
+    + apply forall_upd_nth; [exact I3|]. intros; reflexivity.
+Qed.
+
+Lemma hp_run_inv : forall evs st st', hinv st -> hp_run false st evs = Some st' -> hinv st'.
+Proof.
+  induction evs as [|[e a] r IH]; intros st st' I H; cbn [hp_run] in H; [inversion H; subst; exact I|].
+  destruct (hp_step false st e a) as [s1|] eqn:E; [|discriminate]. apply (IH s1 st' (hp_step_inv _ _ _ _ I E) H).
+Qed.
+
+(* For every history in which callers close a decoder at most once and do not use it afterwards
+   (steps outside that discipline are rejected by hp_step), whatever buffers sync.Pool hands out:
+   a buffer is in the pool at most once and never while a live decoder holds it. *)
+Lemma pool_single_put evs st : hp_run false hp_init evs = Some st ->
+  NoDup (hp_pool st ++ live_bufs (hp_decs st)).
+Proof.
+  intro H. assert (I : hinv hp_init) by (repeat split; cbn; constructor).
+  apply (hp_run_inv evs hp_init st I H).
+Qed.
+
+(* a Next that closes the decoder itself when the input is exhausted, followed by the caller's
+   normal close(): the buffer is pooled twice, two later decoders get the same buffer *)
+Lemma pool_early_close_refuted :
+  option_map hp_pool (hp_run true hp_init [(HNew 0, None); (HExhaust 0, Some 0); (HClose 0, None)]) = Some [0; 0] /\
+  option_map (fun st => live_bufs (hp_decs st))
+    (hp_run true hp_init [(HNew 0, None); (HExhaust 0, Some 0); (HClose 0, None);
+                          (HNew 1, None); (HNew 2, None); (HNext 1 5, Some 0); (HNext 2 5, Some 0)]) = Some [0; 0] /\
+  option_map hp_pool (hp_run false hp_init [(HNew 0, None); (HExhaust 0, Some 0); (HClose 0, None)]) = Some [0].
+Proof. repeat split; reflexivity. Qed.
+
+Lemma hist_case_pred lists evs :
+  pred_ok (CHist lists evs (map (fun x => (hd_read x, true, false))
+     (hout (map (fun t : N * list N * N => big_list (fst (fst t)) (snd (fst t)) (snd t)) lists) evs))) = true.
+Proof. cbn [pred_ok]. apply forallb_forall. intros o H. apply in_map_iff in H as (x & <- & _). reflexivity. Qed.
+
+(* tie T: close() tests it.buf and disablePooling, puts &it.buf, and assigns nothing — it is not
+   idempotent; Next (C12_source_shape) contains no call of close *)
+Lemma close_shape :
+  sdCloseEvents = [("if", "it.buf == nil"); ("return", ""); ("endif", ""); ("if", "it.disablePooling"); ("return", "");
+                   ("endif", ""); ("call", "decodedBufPool.Put")]%string /\ sdCloseAssigns = []%string.
+Proof. split; reflexivity. Qed.
